@@ -188,6 +188,59 @@ fn clone<N: ArrayLength, A: Elem>(boxed: bool) -> Result<CaseInfo, String> {
     Ok(CaseInfo::new(n > 0, "clone"))
 }
 
+/// `Clone::clone_from`: the destination becomes the element-wise clone of the source (same oracle as `clone`; the old
+/// contents of the destination are released exactly once; the source is undisturbed)
+fn clone_from<N: ArrayLength, A: Elem>(boxed: bool) -> Result<CaseInfo, String> {
+    let n = N::USIZE;
+    let src = mk::<A, N>();
+    let ids = ids_of(&src);
+    let before = ledger::clone_calls();
+    let (cl_ids, ok) = if boxed {
+        let b = Box::new(src);
+        let mut d = Box::new(mk::<A, N>());
+        d.clone_from(&b);
+        let ok = d.iter().zip(b.iter()).all(|(x, y)| x.is_clone_of(y));
+        if ids_of(&b[..]) != ids {
+            return Err("clone_from disturbed its source".into());
+        }
+        let mut live = ids.clone();
+        live.extend(ids_of(&d[..]));
+        let (l, z) = A::live_of(&live);
+        ledger::check_exact(&l, z).map_err(|e| format!("after clone_from with source and destination alive: {e}"))?;
+        (ids_of(&d[..]), ok)
+    } else {
+        let mut d = mk::<A, N>();
+        d.clone_from(&src);
+        let ok = d.iter().zip(src.iter()).all(|(x, y)| x.is_clone_of(y));
+        if ids_of(&src) != ids {
+            return Err("clone_from disturbed its source".into());
+        }
+        let mut live = ids.clone();
+        live.extend(ids_of(&d));
+        let (l, z) = A::live_of(&live);
+        ledger::check_exact(&l, z).map_err(|e| format!("after clone_from with source and destination alive: {e}"))?;
+        let r = (ids_of(&d), ok);
+        drop(d);
+        drop(src);
+        r
+    };
+    if !ok || cl_ids.len() != n {
+        return Err(format!("after clone_from, destination element i is not a clone of source element i: destination {cl_ids:?}, source {ids:?}"));
+    }
+    if A::COUNTS_CLONES && ledger::clone_calls() - before != n as u64 {
+        return Err(format!("clone_from called T::clone {} times for N = {n}", ledger::clone_calls() - before));
+    }
+    if A::TRACKED {
+        let mut sorted = cl_ids.clone();
+        sorted.sort();
+        if sorted != cl_ids {
+            return Err(format!("clone_from did not clone in ascending index order: destination ids {cl_ids:?}"));
+        }
+    }
+    ledger::check_exact(&[], 0)?;
+    Ok(CaseInfo::new(n > 0, "clone_from"))
+}
+
 // ---------------------------------------------------------------- zip
 
 macro_rules! zipf {
@@ -297,7 +350,23 @@ pub fn run(ctx: &mut Ctx) {
             c!(format!("fold-{fname}"), "A=Tr4", fold::<N, Tr<0>>(form));
             c!(format!("fold-{fname}"), "A=u32", fold::<N, u32>(form));
             c!(format!("fold-{fname}"), "A=Tr24", fold::<N, Tr<5>>(form));
+            // unusual representations: over-aligned (32 / 64), 3-byte
+            c!(format!("generate-{fname}"), "U=TrA32", generate::<N, TrA>(form));
+            c!(format!("generate-{fname}"), "U=a64", generate::<N, A64>(form));
+            c!(format!("generate-{fname}"), "U=b3", generate::<N, B3>(form));
+            c!(format!("map-{fname}"), "A=TrA32,U=b3", map::<N, TrA, B3>(form));
+            c!(format!("map-{fname}"), "A=b3,U=TrA32", map::<N, B3, TrA>(form));
+            c!(format!("map-{fname}"), "A=a64,U=Tr4", map::<N, A64, Tr<0>>(form));
+            c!(format!("map-{fname}"), "A=u32,U=a64", map::<N, u32, A64>(form));
+            c!(format!("fold-{fname}"), "A=TrA32", fold::<N, TrA>(form));
+            c!(format!("fold-{fname}"), "A=b3", fold::<N, B3>(form));
         }
+        c!("default", "U=TrA32", default_like::<N, TrA>(false));
+        c!("default_boxed", "U=TrA32", default_like::<N, TrA>(true));
+        c!("clone", "A=TrA32", clone::<N, TrA>(false));
+        c!("clone-box", "A=TrA32", clone::<N, TrA>(true));
+        c!("clone", "A=b3", clone::<N, B3>(false));
+        c!("clone-box", "A=a64", clone::<N, A64>(true));
         c!("default", "U=Tr4", default_like::<N, Tr<0>>(false));
         c!("default", "U=TrZ", default_like::<N, TrZ>(false));
         c!("default_boxed", "U=Tr4", default_like::<N, Tr<0>>(true));
@@ -315,6 +384,13 @@ pub fn run(ctx: &mut Ctx) {
         c!("default_boxed", "U=Nd", default_like::<N, Nd>(true));
         c!("clone-box", "A=Tr4", clone::<N, Tr<0>>(true));
         c!("clone-box", "A=u32", clone::<N, u32>(true));
+        c!("clone_from", "A=Tr4", clone_from::<N, Tr<0>>(false));
+        c!("clone_from", "A=TrZ", clone_from::<N, TrZ>(false));
+        c!("clone_from", "A=Nd", clone_from::<N, Nd>(false));
+        c!("clone_from", "A=u32", clone_from::<N, u32>(false));
+        c!("clone_from", "A=TrA32", clone_from::<N, TrA>(false));
+        c!("clone_from-box", "A=Tr4", clone_from::<N, Tr<0>>(true));
+        c!("clone_from-box", "A=Zn", clone_from::<N, Zn>(true));
         macro_rules! zips {
             ($fname:ident, $label:literal) => {
                 c!($label, "A=Tr4,B=Tr4,U=Tr4", zip_wrapped(|| $fname::<N, Tr<0>, Tr<0>, Tr<0>>()));
@@ -327,6 +403,8 @@ pub fn run(ctx: &mut Ctx) {
                 c!($label, "A=Nd,B=Nd,U=Nd", zip_wrapped(|| $fname::<N, Nd, Nd, Nd>()));
                 c!($label, "A=Zn,B=u32,U=Zn", zip_wrapped(|| $fname::<N, Zn, u32, Zn>()));
                 c!($label, "A=Nd,B=Tr4,U=Nd", zip_wrapped(|| $fname::<N, Nd, Tr<0>, Nd>()));
+                c!($label, "A=TrA32,B=b3,U=a64", zip_wrapped(|| $fname::<N, TrA, B3, A64>()));
+                c!($label, "A=b3,B=TrA32,U=TrA32", zip_wrapped(|| $fname::<N, B3, TrA, TrA>()));
             };
         }
         zips!(zip_oo, "zip-owned-owned");
